@@ -10,6 +10,7 @@ import (
 	"flag"
 	"fmt"
 	"io"
+	"net"
 	"net/http"
 	"net/http/httptest"
 	"sort"
@@ -165,6 +166,10 @@ type World struct {
 	// AssignOwner / CloudSeen are scratch state of the C10 oracle (owner key of an IP when it was assigned).
 	AssignOwner map[string]string
 	CloudSeen   int
+	// Configs / ReloadDone / MustKeep are scratch state of the C09 oracle.
+	Configs    []string
+	ReloadDone bool
+	MustKeep   map[string]string
 	// OpBound / LastPoolCount are scratch state of the C07 oracle.
 	OpBound       map[string]int
 	LastPoolCount int
@@ -623,6 +628,8 @@ type IPState struct {
 	UID      string
 	Reserved bool
 	Updated  int64
+	// PoolDesc describes the pool the in-memory entry points to: "mask gateway vlan [node subnets]" (memory dump only).
+	PoolDesc string
 }
 
 func (s IPState) String() string {
@@ -642,8 +649,12 @@ func (w *World) MemDump() []IPState {
 	out := make([]IPState, 0, len(all))
 	for _, f := range all {
 		_, res := f.Labels[constant.ReserveFIPLabel]
+		desc := ""
+		if f.IPInfo.IP != nil {
+			desc = fmt.Sprintf("%s %s %d %v", net.IP(f.IPInfo.IP.Mask).String(), f.IPInfo.Gateway.String(), f.IPInfo.Vlan, f.NodeSubnets.List())
+		}
 		out = append(out, IPState{IP: f.IP.String(), Alloc: f.Key != "" || res, Key: f.Key, Policy: f.Policy, Node: f.NodeName,
-			UID: f.PodUid, Reserved: res, Updated: f.UpdatedAt.UnixNano()})
+			UID: f.PodUid, Reserved: res, Updated: f.UpdatedAt.UnixNano(), PoolDesc: desc})
 	}
 	sort.Slice(out, func(i, j int) bool { return out[i].IP < out[j].IP })
 	return out
